@@ -664,10 +664,14 @@ def rule_r22(text, rules):
                     acc += st[mc + 1 + n].text; n += 1
                 if acc == want: n_after = n; break
             if n_after is None: continue
-            # receiver: identifiers / self joined by `.`
+            # receiver: identifiers / self joined by `.`, each possibly called without arguments (`fty.params()`)
             r = i - 1
+            if st[r].text == ")" and st[r - 1].text == "(" and st[r - 2].kind == "ident": r -= 2
             if not (st[r].kind == "ident"): continue
-            while r - 2 >= 0 and st[r - 1].text == "." and st[r - 2].kind == "ident": r -= 2
+            while r - 2 >= 0 and st[r - 1].text == ".":
+                if st[r - 2].kind == "ident": r -= 2
+                elif r - 4 >= 0 and st[r - 2].text == ")" and st[r - 3].text == "(" and st[r - 4].kind == "ident": r -= 4
+                else: break
             if r - 1 >= 0 and st[r - 1].text in (".", "::", ")", "]", "?"): continue    # part of a longer postfix expression: leave it
             inner = st[mo + 1:mc]
             if len(inner) >= 3 and inner[0].text == "|" and inner[1].kind == "ident" and inner[2].text == "|":
